@@ -573,3 +573,25 @@ def r18_10_reference_owned_node(ctx, rid='R18.10'):
             'rejected (the Any visit strips the !P tag) although the expanded document loads, and with the keys swapped q receives the '
             'P object' % ', '.join(sorted({norm(w) for w in writes})[:3]))
     r.done()
+
+
+def r10_8_each_class_once(ctx, rid='R10.8'):
+    """"each called exactly once": the walk up the class hierarchy visits a class once. A recursion over __bases__ without a record
+    of what was visited reaches a common ancestor once per path (diamond inheritance)."""
+    P = ctx.P
+    r = ctx.rule(rid, 'the walk over the bases applies each ancestor\'s hook once: it follows a linearisation (__mro__) or keeps a set of '
+                      'visited classes', floor=2)
+    for key, hook in (('yatiml.loader:Loader.__savorize', '_yatiml_savorize'), ('yatiml.representers:Representer.__sweeten', '_yatiml_sweeten')):
+        f = fn(P, key)
+        rec = [c for c in f.calls(f.fi.name) if f.live(c)]
+        over_bases = [l for l in f.walk() if isinstance(l, ast.For) and norm(l.iter).endswith('.__bases__')]
+        over_mro = [l for l in f.walk() if isinstance(l, ast.For) and '__mro__' in norm(l.iter)]
+        visited = [c for c in f.walk() if isinstance(c, ast.Compare) and len(c.ops) == 1 and isinstance(c.ops[0], (ast.In, ast.NotIn))
+                   and any(isinstance(x, ast.Name) and x.id in f.fi.params for x in ast.walk(c.comparators[0]))
+                   and 'registered' not in norm(c.comparators[0]) and 'representers' not in norm(c.comparators[0])
+                   and '__dict__' not in norm(c.comparators[0])]
+        once = (bool(over_mro) and not rec) or (bool(rec) and bool(visited)) or (not rec and not over_bases)
+        r.check(once, '%s visits each class once' % f.fi.qual, f.key('visits-each-class-once'), f.loc(over_bases[0]) if over_bases else f.loc(),
+                '%s recurses over __bases__ without remembering which classes it has visited: with diamond inheritance (D(B, C), B(A), '
+                'C(A), all registered) A.%s is called twice' % (f.fi.qual, hook))
+    r.done()
